@@ -95,14 +95,19 @@ let v_star ws a =
 (* ---------------------------------------------------------------- automata *)
 type paut = { st : int; fin : int list; adds : (int * int * int list) list }
 
+let probes = ref 0
 let parse_aut s =
   match split '/' s with
   | [a; b; c] ->
     { st = ios a;
       fin = (if b = "" then [] else List.map ios (split ',' b));
+      (* "Q<mask>" entries are queries the harness interleaves with the construction; the model is
+         pure (a query cannot change a later answer), so they are skipped here *)
       adds = (if c = "" then [] else
-                List.map (fun t -> match split ':' t with
-                    | [s; a; ts] -> (ios s, ios a, if ts = "" then [] else List.map ios (split '.' ts))
+                List.filter_map (fun t ->
+                    if String.length t > 0 && t.[0] = 'Q' then (incr probes; None) else
+                    match split ':' t with
+                    | [s; a; ts] -> Some (ios s, ios a, if ts = "" then [] else List.map ios (split '.' ts))
                     | _ -> failwith ("bad transition " ^ t)) (split ',' c)) }
   | _ -> failwith ("bad automaton " ^ s)
 
@@ -363,4 +368,5 @@ let () =
    with End_of_file -> ());
   print_string (Buffer.contents fidbuf);
   Printf.printf "STAT cases=%d\nSTAT ops=%d\nSTAT nontrivial=%d\nSTAT fidelity_mismatches=%d\n" !cases !nops (Hashtbl.length nontrivial) !nfid;
+  Printf.printf "STAT interleaved_probes=%d\n" !probes;
   Hashtbl.iter (fun k v -> Printf.printf "STAT %s=%d\n" k v) stats
